@@ -23,9 +23,9 @@ AuthTokens == {"h", "H", "g", "None"}
 LowerOf == ("sdc.x" :> "sdc.x") @@ ("SDC.X" :> "sdc.x") @@ ("Sdc.X" :> "sdc.x") @@ ("sdc.y" :> "sdc.y")
            @@ ("h" :> "h") @@ ("H" :> "h") @@ ("g" :> "g") @@ ("None" :> "None")
 
-\* segment tokens: plain, upper case, percent-encoded "a" (two spellings of the hex digits do not
-\* exist for 61, so "%41" = "A" is the second encoded letter), encoded slash in both hex spellings,
-\* empty segment, a segment that contains an encoded slash, a doubly encoded "a", another letter
+\* segment tokens: plain "a", upper case "A", their percent-encoded spellings "%61" and "%41", the encoded
+\* slash in both hex spellings, the empty segment, a segment that contains an encoded slash, a doubly
+\* encoded "a" (decodes once, to the three characters %61), another letter
 SegTokens == {"a", "A", "%61", "%41", "%2F", "%2f", "", "a%2Fa", "%2561", "b"}
 DecOf == ("a" :> "a") @@ ("A" :> "A") @@ ("%61" :> "a") @@ ("%41" :> "A") @@ ("%2F" :> "/") @@ ("%2f" :> "/")
          @@ ("" :> "") @@ ("a%2Fa" :> "a/a") @@ ("%2561" :> "%61") @@ ("b" :> "b")
